@@ -31,6 +31,7 @@
 mod config;
 mod errors;
 
+#[cfg(not(deadpool_verif))]
 use std::{
     convert::TryInto,
     ops::{Deref, DerefMut},
@@ -40,8 +41,25 @@ use std::{
     },
     time::Duration,
 };
+#[cfg(deadpool_verif)]
+use std::{
+    convert::TryInto,
+    ops::{Deref, DerefMut},
+    sync::{
+        atomic::{AtomicIsize, AtomicUsize, Ordering},
+        Arc, Weak,
+    },
+    time::Duration,
+};
 
+#[cfg(not(deadpool_verif))]
 use tokio::sync::{Semaphore, TryAcquireError};
+
+// verification builds: the lock and the semaphores are the instrumented ones
+#[cfg(deadpool_verif)]
+use crate::verif::{Mutex, Semaphore};
+#[cfg(deadpool_verif)]
+use tokio::sync::TryAcquireError;
 
 pub use crate::Status;
 
@@ -402,15 +420,12 @@ impl<T> Pool<T> {
     /// Snapshot of the internal counters (verification builds only).
     #[cfg(deadpool_verif)]
     pub fn verif_snapshot(&self) -> crate::verif::UnmanagedSnapshot {
-        let queue_len = match self.inner.queue.lock() {
-            Ok(q) => q.len(),
-            Err(e) => e.into_inner().len(),
-        };
+        let queue_len = self.inner.queue.raw_lock().len();
         crate::verif::UnmanagedSnapshot {
-            permits: self.inner.semaphore.available_permits(),
-            size_permits: self.inner.size_semaphore.available_permits(),
-            closed: self.inner.semaphore.is_closed(),
-            size_closed: self.inner.size_semaphore.is_closed(),
+            permits: self.inner.semaphore.raw().available_permits(),
+            size_permits: self.inner.size_semaphore.raw().available_permits(),
+            closed: self.inner.semaphore.raw().is_closed(),
+            size_closed: self.inner.size_semaphore.raw().is_closed(),
             size: self.inner.size.load(Ordering::Relaxed),
             available: self.inner.available.load(Ordering::Relaxed),
             queue_len,
@@ -421,10 +436,7 @@ impl<T> Pool<T> {
     /// Visits the queued objects, oldest first (verification builds only).
     #[cfg(deadpool_verif)]
     pub fn verif_visit_queue(&self, mut f: impl FnMut(&T)) {
-        let queue = match self.inner.queue.lock() {
-            Ok(q) => q,
-            Err(e) => e.into_inner(),
-        };
+        let queue = self.inner.queue.raw_lock();
         queue.iter().for_each(&mut f);
     }
 }
